@@ -14,7 +14,7 @@ Definition bools := [false; true].
 
 Definition mk (i o e : redir) (cwd su sg sp det prep : bool) (n : nat) : config :=
   {| c_stdin := i; c_stdout := o; c_stderr := e; c_cwd := cwd; c_setuid := su; c_setgid := sg; c_setpgid := sp;
-     c_prep_fails := prep; c_ncand := n; c_detached := det |}.
+     c_prep_fails := prep; c_ncand := n; c_detached := det; c_inflight := false |}.
 
 (* all 252 redirection combinations, every option on, detached or not *)
 Definition configs_full : list config :=
@@ -194,7 +194,7 @@ Proof. intros H. pose proof bounds_sweep as S. rewrite forallb_forall in S. exac
 Definition prep_refused (c : config) : bool :=
   let o := run None exec_yes {| c_stdin := c_stdin c; c_stdout := c_stdout c; c_stderr := c_stderr c; c_cwd := c_cwd c;
                                 c_setuid := c_setuid c; c_setgid := c_setgid c; c_setpgid := c_setpgid c; c_prep_fails := true;
-                                c_ncand := c_ncand c; c_detached := c_detached c |} in
+                                c_ncand := c_ncand c; c_detached := c_detached c; c_inflight := c_inflight c |} in
   match o_result o with LErr 22 => true | _ => false end && negb (forked (o_parent o)) && negb (has_fresh (tab (o_parent o))).
 
 Lemma prep_sweep : forallb prep_refused (filter (fun c => negb (invalid c)) (configs_full ++ configs_opts)) = true.
@@ -228,6 +228,26 @@ Proof.
   intros Hc Hf. pose proof child_clean_sweep as S. rewrite forallb_forall in S. specialize (S c Hc).
   rewrite forallb_forall in S. exact (S f Hf).
 Qed.
+
+(* F9 (known finding): a launch running on another thread has inheritable child ends; a child forked meanwhile
+   holds them.  Every configuration of the sweep above has c_inflight = false (the theorem is about launches
+   that do not overlap another thread's); with c_inflight = true the same predicate fails. *)
+Definition with_inflight (c : config) : config :=
+  {| c_stdin := c_stdin c; c_stdout := c_stdout c; c_stderr := c_stderr c; c_cwd := c_cwd c; c_setuid := c_setuid c;
+     c_setgid := c_setgid c; c_setpgid := c_setpgid c; c_prep_fails := c_prep_fails c; c_ncand := c_ncand c;
+     c_detached := c_detached c; c_inflight := true |}.
+
+Lemma sweep_has_no_inflight : forallb (fun c => negb (c_inflight c)) (configs_full ++ configs_opts) = true.
+Proof. vm_compute. reflexivity. Qed.
+
+Theorem no_overlap_in_sweep c : In c (configs_full ++ configs_opts) -> c_inflight c = false.
+Proof.
+  intros H. pose proof sweep_has_no_inflight as S. rewrite forallb_forall in S. specialize (S c H).
+  destruct (c_inflight c); [discriminate|reflexivity].
+Qed.
+
+Theorem inflight_ends_leak : forallb (fun c => invalid c || c_prep_fails c || negb (child_clean None (with_inflight c))) (configs_full ++ configs_opts) = true.
+Proof. vm_compute. reflexivity. Qed.
 
 (* the child's stdin pipe has exactly one writer left (the parent's end) and each output pipe exactly one
    reader: closing the parent's end gives end-of-file at once *)
